@@ -252,6 +252,8 @@ def run_cases(exe, cases, tag, jobs=16, batch=None, cpu=120, env_extra=None, con
     for c in cases:
         r = results.get(c.cid)
         if r is not None and r.status == "ok":
+            for a in r.ops("apicheck"):
+                API_ISSUES.append(dict(case=c.cid, what=a["what"], script=c.script()[-3000:]))
             for fd in r.ops("fds"):
                 FD_LEAKS.append(dict(case=c.cid, open_descriptors_at_begin=fd["begin"], open_descriptors_at_end=fd["end"],
                                      script=c.script()[-3000:]))
@@ -260,6 +262,8 @@ def run_cases(exe, cases, tag, jobs=16, batch=None, cpu=120, env_extra=None, con
 
 # cases that ended with a different number of open descriptors than they started with (reported by Check.finish)
 FD_LEAKS = []
+# API contract checks the harness makes on the side (e.g. a caller-owned descriptor closed by the library)
+API_ISSUES = []
 
 
 def get_exe(variant="asan", name="yrh", sources=("yrh.c",), extra_cflags=(), extra_ldflags=()):
